@@ -345,6 +345,7 @@ pub fn drive_faults(_seed: u64, tier: &str, out: &mut Out) {
 /// C17: crash after any prefix of the recorded operations of an archive write into a fresh stream
 pub fn drive_crash(_seed: u64, tier: &str, out: &mut Out) {
     let mut total = 0u64;
+    let mut rebuilt = 0u64;
     for s in scenarios(tier).into_iter().filter(|s| s.kind == "arch_write" || s.kind == "arch_rewrite") {
         let (ci, co) = (new_ctl(), new_ctl());
         co.lock().expect("ctl").keep_bytes = true;
@@ -360,11 +361,29 @@ pub fn drive_crash(_seed: u64, tier: &str, out: &mut Out) {
             runs.push(json!({"k": k, "res": res_tag(&r), "same": img == final_img, "len": img.len().min(1 << 30)}));
             total += 1;
         }
-        out.emit(json!({"ev": "Crash", "scenario": s.name, "n": n, "base_res": base.res,
+        // small archives: the recorded operations themselves, so that TLC rebuilds every prefix image
+        let ops_json: Option<Vec<Value>> = if final_img.len() <= 2500 {
+            Some(log.iter().map(|r| {
+                if r.kind == OpKind::Write && r.ok {
+                    json!({"k": "w", "pos": r.pos_before, "bytes": bytes_json(r.bytes.as_deref().unwrap_or(&[]))})
+                } else {
+                    json!({"k": "o", "pos": r.pos_before.min(1 << 30), "bytes": []})
+                }
+            }).collect())
+        } else {
+            None
+        };
+        let mut ev = json!({"ev": "Crash", "scenario": s.name, "n": n, "base_res": base.res,
                         "final_equals_stream": final_img == base.out, "runs": runs,
                         "write_ops": log.iter().filter(|r| r.kind == OpKind::Write).count(),
-                        "seek_ops": log.iter().filter(|r| r.kind == OpKind::Seek).count()}));
+                        "seek_ops": log.iter().filter(|r| r.kind == OpKind::Seek).count()});
+        if let Some(o) = ops_json {
+            ev["ops"] = Value::Array(o);
+            rebuilt += 1;
+        }
+        out.emit(ev);
     }
+    println!("stat crash_scenarios_rebuilt_by_tlc={rebuilt}");
     println!("stat crash_points={total}");
 }
 
